@@ -282,7 +282,7 @@ func init() {
 		Level: "model_checking",
 		Rule: "stateless exploration of all schedules within a deviation bound (quick 1, thorough 2) of a non-plain, no-colour dcat session over 1-3 in-process servers (each its own Serverless connector, ServerHandler and host name) " +
 			"x 1-2 files (distinct basenames, or the same basename in different directories through one glob) x 1-2 lines, plus lines of 40000/70000 bytes that span several transport reads; the stdout logger's lock operations are branching points; " +
-			"oracle: every stdout line is exactly one REMOTE|host|perc|n|id|text record whose text is line n of source (host,id), per source n = 1,2,.. without gap or repeat, every line present; distinct = distinct (scenario, outcome) pairs",
+			"oracle: every stdout line is exactly one REMOTE|host|perc|n|id|text record whose text is line n of source (host,id), per source n = 1,2,.. without gap or repeat, every line present; plus the real TailFile reader with a source faster than its consumer (queue capacity 1/4/100, histories of up to 450 lines, lines dropped at a full queue): every delivered line carries its own running number; distinct = distinct (scenario, outcome) pairs",
 		Assumptions: []string{
 			"code between two synchronisation operations is atomic (data-race freedom; checked by the free-running -race pass)",
 			"the servers run in the client's process through the serverless connector (the SSH transport is a byte stream with arbitrary segmentation; segmentation below 32 KiB is covered by the long-line scenarios)",
@@ -304,6 +304,33 @@ func init() {
 				c.Explore(c07Scenario(p), d, c07Sig)
 				c.Sample(map[string]interface{}{"scenario": p.String(), "deviation_bound": d})
 			}
+			// a followed source that is faster than the client: lines are dropped at a full queue; every line that IS
+			// delivered must still carry its own running number (the follow scenarios of C04 with their label oracle)
+			ps4, _ := c04ParamSets(c.Tier)
+			for i, p := range ps4 {
+				if c.Expired() {
+					return
+				}
+				dd := -1
+				switch {
+				case p.Hist > 0:
+					dd = 0
+				case p.Cap == 1 && p.Late:
+					dd = 1
+				}
+				if dd < 0 {
+					continue
+				}
+				sc := c04Scenario(p, 500000+c.Shard*100000+i)
+				sc.Name = "c07-follow-labels"
+				sc.Agg = fmt.Sprintf("c07-follow-labels cap=%d history=%v", p.Cap, p.Hist > 0)
+				c.Explore(sc, dd, func(msg string, v *explore.Violation) string {
+					if strings.Contains(msg, "labelled with running number") {
+						return "wrong-running-number-after-dropped-lines"
+					}
+					return c07Sig(msg, v)
+				})
+			}
 		},
 		Replay: func(c *Ctx, rec *ViolationRec) string {
 			for _, tier := range []string{"quick", "thorough"} {
@@ -321,7 +348,7 @@ func init() {
 					}
 				}
 			}
-			return "unknown scenario " + string(rec.Params)
+			return "unknown scenario " + string(rec.Params) + " (follow-label scenarios: re-run bin/check C07 quick)"
 		},
 	})
 }
